@@ -317,6 +317,19 @@ def special_scenario(kind):
         main = ("import box, Box, bump from o\nprint box.v\nprint bump()\nprint box.v\nb2 = Box(5)\nprint b2.v\nuse = fn(b: Box) -> int {\n\treturn b.v\n}\nprint use(box)\nimport o\nprint (o.box).v\nprint \"@end\"\n")
         exp = ["o init", "1", "2", "2", "5", "2", "2", "@end"]
         files = {"main.ms": main, "o.ms": lib}
+    elif kind.startswith("local-shadow-of-imported-name:"):
+        # an importer may assign to a name it imported with `import x from m`: that makes a LOCAL of the importer (the repository's
+        # tests document it) - the module's variable, its functions and the other importers keep the module's value
+        how = kind.split(":")[1]
+        lib = ("print \"lib init\"\nexport level: int = 1\nexport current: fn() -> int = fn() -> int {\n\treturn level\n}\n"
+               "export raise: fn() -> int = fn() -> int {\n\tmodify level = level + 1\n\treturn level\n}\n")
+        write = {"assign": "level = level * 100", "opassign": "level *= 100", "typed": "level: int = level * 100", "in-block": "if true {\n\tlevel = level * 100\n}"}[how]
+        seen = "100"          # (also from inside a block: the imported name is a variable of the importer's module scope)
+        worker = ("import level, current from lib\nprint \"worker \" + level\n" + write + "\nprint \"worker local \" + level\nprint \"worker sees \" + current()\n"
+                  "export report: fn() -> int = fn() -> int {\n\treturn level\n}\n")
+        main = "import lib\nimport worker\nprint lib.level\nprint lib.current()\nprint lib.raise()\nprint worker.report()\nprint lib.level\nprint \"@end\"\n"
+        exp = ["lib init", "worker 1", "worker local " + seen, "worker sees 1", "1", "1", "2", seen, "2", "@end"]
+        files = {"main.ms": main, "lib.ms": lib, "worker.ms": worker}
     elif kind.startswith("back-edge:"):
         # a module imports, at the END of its top level, a module that imports names back from it (the repository's
         # `circular_import_workaround`): the import that arrives while the first module is still initialising finds the module
@@ -339,7 +352,7 @@ def special_scenario(kind):
     return make_scenario(files, exp)
 
 
-SPECIALS = ["back-edge:%s:%s:%s" % (b, e, x) for b in ("names", "module") for e in ("registry", "both-forms") for x in ("plain", "after-a-call")] + ["self-in-imported-class:importer-top-level", "self-in-imported-class:entry-module", "self-in-imported-class:from-function",
+SPECIALS = ["local-shadow-of-imported-name:" + h for h in ("assign", "opassign", "typed", "in-block")] + ["back-edge:%s:%s:%s" % (b, e, x) for b in ("names", "module") for e in ("registry", "both-forms") for x in ("plain", "after-a-call")] + ["self-in-imported-class:importer-top-level", "self-in-imported-class:entry-module", "self-in-imported-class:from-function",
             "names-that-begin-with-keywords", "exported-object-by-name"]
 NEGATIVES = ["write-through-captured-module-alias:%s:%s" % (w_, c_) for w_ in ("assign", "opassign", "unwrap") for c_ in ("function", "nested-function", "method")] + ["private-via-module", "private-via-names", "write-module-member", "write-through-module-alias", "opassign-through-module-alias", "wrong-type-use", "exported-twice"]
 
